@@ -575,3 +575,33 @@ Definition blk_verdict (c : blk_case) : verdict :=
            all2 (fun o m => match o with Obs s => lmx_eq s m | Raised => false end) (bk_scalar c) sw
         then Agree else Differ
     end.
+
+(* ---- C11: flatten ---- *)
+Record flat_case := {
+  fl_tree : ptree;
+  fl_flat : bool;                         (* no solver-backed structure remains *)
+  fl_defaults_same : bool;                (* default_params unchanged as a finite map *)
+  fl_calls : list (dict * obs (list QcCf)) (* solve with assignment p AFTER flatten, per p *)
+}.
+
+(* the implementation after flatten() against (1) the model of the flattened solver — any
+   difference is a new defect (ImplError) — and (2) the nested meaning the property demands —
+   a difference there while (1) agrees is exactly "flatten changed the meaning" (Differ) *)
+From Lekkersim Require Import Flatten.
+Definition flatp_verdict (c : flat_case) : verdict :=
+  if negb (fl_flat c && fl_defaults_same c) then ImplError else
+  let vs := map (fun k => match snd k with
+                          | Raised => ImplError
+                          | Obs o =>
+                              if vals_close (deliver_flat fnlib (fl_tree c) (fst k)) o then
+                                if vals_close (deliver fnlib (fl_tree c) (fst k)) o then Agree else Differ
+                              else ImplError
+                          end) (fl_calls c) in
+  if forallb is_agree vs then Agree
+  else if existsb (fun v => match v with ImplError => true | _ => false end) vs then ImplError
+  else Differ.
+
+(* wiring half: the flattened solver against the nested and the flat model *)
+Record flatw_case := { fw_case : hier_case; fw_flat : bool }.
+Definition flatw_verdict (c : flatw_case) : verdict :=
+  if fw_flat c then hier_both_verdict (fw_case c) else Differ.
